@@ -57,7 +57,7 @@ func checkFit(c Case) error {
 	ex1, ey1 := ex0+w, ey0+h
 	// a result beyond the float32 range (or down among the subnormals) cannot
 	// be returned at all: outside "finite positive sizes", no verdict
-	if m := math.Max(math.Max(math.Abs(ex0), math.Abs(ey0)), math.Max(math.Abs(ex1), math.Abs(ey1))); m > 1e37 || math.Max(w, h) < 1e-36 {
+	if m := math.Max(math.Max(math.Abs(ex0), math.Abs(ey0)), math.Max(math.Abs(ex1), math.Abs(ey1))); m > 3.3e38 || math.Max(w, h) > 3.3e38 || math.Max(w, h) < 1e-36 {
 		outOfRange++
 		return nil
 	}
@@ -154,6 +154,14 @@ func genCase(t *rapid.T) Case {
 			w, h, dx, dy = w*k, h*k, dx*k, dy*k
 		}
 	}
+	if rapid.IntRange(0, 9).Draw(t, "top") == 0 {
+		// a target at the very top of the float32 range (finite all the same): the fitted
+		// rectangle lies within it, sums of two extents do not
+		k := rapid.Float64Range(0.3, 0.999).Draw(t, "top.k") * math.MaxFloat32 / math.Max(float64(dx), float64(dy))
+		if nx, ny := float32(float64(dx)*k), float32(float64(dy)*k); nx > 0 && ny > 0 && !math.IsInf(float64(nx), 0) && !math.IsInf(float64(ny), 0) {
+			dx, dy = nx, ny
+		}
+	}
 	var minX, minY float32
 	switch rapid.IntRange(0, 4).Draw(t, "origin") {
 	case 3: // the box ends exactly at the origin, on both axes or on one
@@ -211,6 +219,9 @@ func classify(c Case) (bool, uint64, []string) {
 	}
 	if r := math.Abs(math.Log10(ra / rb)); r > 3 {
 		labels = append(labels, "aspect-mismatch>1e3")
+	}
+	if math.Max(float64(c.DX), float64(c.DY)) > 1e38 {
+		labels = append(labels, "target-extent-beyond-1e38")
 	}
 	if m := math.Abs(math.Log10(float64(c.DX) * vw)); m > 19 {
 		labels = append(labels, "target-times-viewbox-beyond-1e+-19")
